@@ -93,9 +93,3 @@ def _ser(inst):
     return {k: (str(v) if not isinstance(v, (int, str, list, dict)) else v) for k, v in inst.items() if k != "blocks"} | {
         "blocks": [{k: [[str(x) for x in row] if isinstance(row, list) else str(row) for row in v] for k, v in b.items()} for b in inst["blocks"]]
     }
-
-
-def replay(rep_obj) -> int:
-    print("C08 replays are re-run by seed: VERIF_SEED=<seed> ./check C08 --tier <tier>; the replay file lists the failing instance and op")
-    print(rep_obj.get("what"))
-    return 1
